@@ -29,6 +29,7 @@ pub fn classify_gap(ls: &LangSet, code: &str, toks: &[IdTok]) -> Gap {
     let api = ls.api(code);
     let conj = spell::info(code).conj;
     let mut amb = false;
+    let mut hard = false;
     for t in toks {
         if is_skipped(&t.text) {
             continue;
@@ -41,8 +42,12 @@ pub fn classify_gap(ls: &LangSet, code: &str, toks: &[IdTok]) -> Gap {
                 // linking word, or the conjunction (swallowed by the number grammar or listed as linking)
             } else if lower == conj {
                 amb = true; // a conjunction flagged "not a number part" that the language does not list as linking
+            } else if !t.nan && api.apply(lower, &mut text2num::digit_string::DigitString::new()) == Err(crate::api::ErrK::Incomplete) {
+                // a token the number grammar itself answers with "more to come" (e.g. a compound ending in the
+                // conjunction, `soixante-douze-et`): swallowed like a conjunction, same unsettled class
+                amb = true;
             } else {
-                return Gap::Hard;
+                hard = true;
             }
         } else if t.text.trim() == "." {
             return Gap::Hard;
@@ -50,7 +55,9 @@ pub fn classify_gap(ls: &LangSet, code: &str, toks: &[IdTok]) -> Gap {
         // any other token without a letter (punctuation, "...", digit tokens) is transparent: the property's anchor
         // names the breakers as "alphabetic non-linking word or a lone period"
     }
-    if amb {
+    if hard {
+        Gap::Hard
+    } else if amb {
         Gap::Ambiguous
     } else {
         Gap::Soft
